@@ -630,6 +630,37 @@ def register(an):
                 return mk_none()
         return mk_option(args[1], frozenset([0, 1]))
 
+    @model('core::bool::<impl bool>::then')
+    def m_then(an, t, args, frame, st, c):
+        # b.then(f): Some(f()) when b holds, None otherwise - followed when b is decided in the current state
+        b = args[0]
+        if len(args) != 2 or args[1][0] != 'closure' or b[0] != 'bool':
+            return NotImplemented
+        verdict = None
+        if b[1][0] == 'const':
+            verdict = bool(b[1][1])
+        elif b[1][0] in ('cmp', 'and', 'not'):
+            try:
+                s1 = st.copy()
+                s1.assume(b[1])
+                can_true = True
+            except Infeasible:
+                can_true = False
+            try:
+                s2 = st.copy()
+                s2.assume(cond_not(b[1]))
+                can_false = True
+            except Infeasible:
+                can_false = False
+            if can_true != can_false:
+                verdict = can_true
+        if verdict is None:
+            return NotImplemented
+        if not verdict:
+            return mk_none()
+        r = call_closure(an, args[1], [], frame, st, t)
+        return mk_some(r) if r is not None else NotImplemented
+
     @suffix('>::saturating_add', '>::saturating_sub')
     def m_saturating(an, t, args, frame, st, c):
         ty = an.subst_ty(t.dest.ty, frame)
